@@ -80,7 +80,8 @@ def solve(world):
         exports_of[mod["name"].lower()] = exports(mod, imp)
         tables[mod["name"].lower()] = merge(imp, own_table(mod))
     for unit in world.get("progs", []) + world.get("extprocs", []):
-        tables[unit["name"].lower()] = merge(imports(unit["uses"], exports_of), own_table(unit))
+        uses = list(unit["uses"]) + list((unit.get("block") or {}).get("uses") or [])
+        tables[unit["name"].lower()] = merge(imports(uses, exports_of), own_table(unit))
     return tables, exports_of
 
 
